@@ -664,6 +664,23 @@ func runC03(w *World, r *Report, tier string) {
 	}
 	r.Floor("R5", 4)
 
+	sessionErrCleared(w, r, "R2")
+
+	// ---- R6 no panic on a reply that lacks an optional child
+	{
+		r.Rule("R6", "no reply makes the negotiation panic: a method is called on an interface-typed member of a decoded reply (nil when the element lacks that child) only behind a nil test of it")
+		n6 := 0
+		for _, mi := range w.optionalMemberInvokes(w.LibFuncs()) {
+			owner := w.ownerKey(mi.fn)
+			if !(strings.HasPrefix(owner, "xmpp.(*Session).") || owner == "xmpp.NewSession" || owner == "xmpp.authPlain" || owner == "xmpp.authSASL" || strings.HasPrefix(owner, "xmpp.(*Component).Resume")) {
+				continue
+			}
+			n6++
+			r.Check(mi.guarded, "R6", fmt.Sprintf("%s→%s.%s#nil-guard", owner, mi.field, mi.call.Call.Method.Name()), w.ipos(mi.call), "a method is called on the "+mi.field+" member of a reply without a nil test: a reply that lacks that child (for example an empty <failed/>) makes the negotiation panic instead of returning an error", "behind a nil test")
+		}
+		_ = n6
+	}
+
 	// ---- R4 announcements
 	established, _ := intConstOf(w.Pkgs["xmpp"].Types.Scope().Lookup("StateSessionEstablished"))
 	n4 := 0
@@ -985,17 +1002,10 @@ func c03Replies(w *World, r *Report, fErr *types.Var) {
 		ok := len(reads) == 1
 		if ok {
 			rd := reads[0].(*ssa.Call)
-			ev := errResult(rd)
-			stored := false
-			allInstrs(fn, func(in ssa.Instruction) {
-				if st, isSt := in.(*ssa.Store); isSt && isStoreTo(in, fErr) && st.Val == ev {
-					stored = true
-				}
-			})
 			tag, _ := decodedTypeTag(rd)
-			ok = stored && strings.HasSuffix(tag, " features")
+			ok = strings.HasSuffix(tag, " features") // (that its outcome reaches s.err on every path: R2 #clears-stale-error)
 		}
-		r.Check(ok, "R3", "xmpp.(*Session).extractStreamFeatures#reply", w.pos(fn.Pos()), "the result of decoding <stream:features/> is not recorded in the sticky error", "s.err = Decode(&features)")
+		r.Check(ok, "R3", "xmpp.(*Session).extractStreamFeatures#reply", w.pos(fn.Pos()), "what is read after the stream open is not decoded as <stream:features/>", "Decode(&features)")
 	}
 }
 
@@ -1021,4 +1031,57 @@ func rootOf(v ssa.Value) ssa.Value {
 			return v
 		}
 	}
+}
+
+// sessionErrCleared: a Session is reused for the next connection attempt (Client.connect keeps it, NewSession takes
+// c.Session). Its sticky error must not survive into that attempt: reading the stream features — the first thing every
+// attempt does — leaves s.err nil when the read succeeded, on every path. (C03.R2 and, shared, C13.R8.)
+func sessionErrCleared(w *World, r *Report, rule string) {
+	fn := w.Func("xmpp.(*Session).extractStreamFeatures")
+	fErr := w.Field("xmpp.Session.err")
+	cons := "xmpp.(*Session).extractStreamFeatures#clears-stale-error"
+	reads := w.callsInH(fn, "encoding/xml.Decoder.Decode", "encoding/xml.Decoder.DecodeElement", "stanza.NextPacket")
+	if len(reads) != 1 {
+		r.Undecided(rule, cons, w.pos(fn.Pos()), fmt.Sprintf("expected one read of the features, found %d", len(reads)))
+		return
+	}
+	rd := reads[0].(*ssa.Call)
+	ev := errResult(rd)
+	bad := ""
+	n := 0
+	err := walkPaths(entryLoc(fn), nil, nil, 5000, func(path []ssa.Instruction, end pathEnd) {
+		rt, isRet := path[len(path)-1].(*ssa.Return)
+		if !isRet {
+			return
+		}
+		var final ssa.Value
+		assigned := false
+		forPath(path, func(i int, in ssa.Instruction) {
+			if st, ok := in.(*ssa.Store); ok {
+				if fa, ok := st.Addr.(*ssa.FieldAddr); ok && fieldOfAddr(fa) == fErr {
+					final, assigned = resolveOn(st.Val, i, path), true
+				}
+			}
+		})
+		if pathAsserts(path, func(c ssa.Value, truth bool) bool { return assertsNonNilR(c, truth, ev) }) {
+			// the read failed: the failure is recorded
+			if !assigned || !(final == ev || resolvedEq(final, ev) || certainError(w, final, path)) {
+				bad = "a failed read of the stream features is not recorded in s.err (return at " + w.ipos(rt) + ")"
+			}
+			return
+		}
+		n++
+		if !assigned {
+			bad = "when the features are read successfully s.err keeps whatever it held (return at " + w.ipos(rt) + "): a Session reused after a failed attempt fails the next attempt with the old error, although the server did everything right — and the stream-management state is thrown away"
+			return
+		}
+		if !(isNilConst(final) || final == ev || resolvedEq(final, ev)) {
+			bad = "after a successful read of the features s.err is set to " + w.nfOn(final, path)
+		}
+	})
+	if err != nil {
+		r.Undecided(rule, cons, w.pos(fn.Pos()), err.Error())
+		return
+	}
+	r.Check(bad == "" && n > 0, rule, cons, w.pos(fn.Pos()), bad, fmt.Sprintf("%d success path(s), each leaves s.err nil (assigned, not merely untouched)", n))
 }
